@@ -21,17 +21,18 @@ Import ListNotations.
 Open Scope N_scope.
 
 (* ---- the chain ---- *)
-Record ctx_ := mkCtx { x_idx : N; x_hash : N; x_logs : list log }.
+Record ctx_ := mkCtx { x_idx : N; x_hash : N; x_logs : list log; x_traces : list N }.
 Record cblock := mkCB { cb_hash : N; cb_time : N; cb_txs : list ctx_ }.
 Definition chain := N -> cblock.
 Definition chain_of (l : list cblock) : chain := fun n => nth (N.to_nat n) l (mkCB 0 0 []).
 
-(* all logs of transaction i of block n *)
+Definition find_ctx (ch : chain) (n i : N) : option ctx_ :=
+  find (fun t => x_idx t =? i) (cb_txs (ch n)).
+(* all logs / all trace actions of transaction i of block n *)
 Definition full (ch : chain) (n i : N) : list log :=
-  match find (fun t => x_idx t =? i) (cb_txs (ch n)) with
-  | Some t => x_logs t
-  | None => []
-  end.
+  match find_ctx ch n i with Some t => x_logs t | None => [] end.
+Definition ftr (ch : chain) (n i : N) : list N :=
+  match find_ctx ch n i with Some t => x_traces t | None => [] end.
 
 Definition chain_wf (ch : chain) : Prop :=
   forall n, NoDup (map x_idx (cb_txs (ch n)))
@@ -48,12 +49,13 @@ Definition fresh_blk (ch : chain) (b : option kind) (n : N) : blk :=
   | Some KHeaders => mkBlk n (cb_hash (ch n)) (cb_time (ch n)) []
   | Some KBlocks =>
       mkBlk n (cb_hash (ch n)) (cb_time (ch n))
-            (map (fun t => mkTx (x_idx t) (x_hash t) 0 []) (cb_txs (ch n)))
+            (map (fun t => mkTx (x_idx t) (x_hash t) 0 [] []) (cb_txs (ch n)))
   end.
 Definition fresh (ch : chain) (b : option kind) (k : key) : list blk :=
   map (fresh_blk ch b) (krange k).
 
-(* ---- what the extra request makes the caller attach to block n ---- *)
+(* ---- what the caller attaches to block n: first what its receipts / logs
+   request brings, then (plans with traces) what trace_block(n) brings ---- *)
 Inductive extra := XNone | XLogs | XReceipts.
 (* address filter: empty list = every address *)
 Definition matches (f : list N) (l : log) : bool :=
@@ -62,7 +64,7 @@ Definition matches (f : list N) (l : log) : bool :=
 Definition want (x : extra) (f : list N) (l : log) : bool :=
   match x with XNone => false | XLogs => matches f l | XReceipts => true end.
 
-Definition caller_ops (ch : chain) (x : extra) (f : list N) (n : N) : list aop :=
+Definition stage1_ops (ch : chain) (x : extra) (f : list N) (n : N) : list aop :=
   match x with
   | XNone => []
   | XLogs =>
@@ -73,6 +75,15 @@ Definition caller_ops (ch : chain) (x : extra) (f : list N) (n : N) : list aop :
   | XReceipts =>
       map (fun t => AReceipt (cb_hash (ch n)) (x_idx t) (x_hash t) 1 (x_logs t)) (cb_txs (ch n))
   end.
+(* trace_block(n) returns every trace of the block; a transaction without
+   traces does not appear in it *)
+Definition trace_ops (ch : chain) (n : N) : list aop :=
+  flat_map (fun t => match x_traces t with
+                     | [] => []
+                     | tas => [ATraces (cb_hash (ch n)) (x_idx t) (x_hash t) tas]
+                     end) (cb_txs (ch n)).
+Definition caller_ops (ch : chain) (x : extra) (t : bool) (f : list N) (n : N) : list aop :=
+  stage1_ops ch x f n ++ (if t then trace_ops ch n else []).
 
 (* bm[num] = &blocks[i]: the LAST block carrying that number *)
 Definition has_num (n : N) (bs : list blk) : bool := existsb (fun b => b_num b =? n) bs.
@@ -82,14 +93,18 @@ Fixpoint blks_apply (n : N) (f : blk -> blk) (bs : list blk) : list blk :=
   | b :: r => if has_num n r then b :: blks_apply n f r
               else if b_num b =? n then f b :: r else b :: r
   end.
-Definition attach_ops (n : N) (ops : list aop) (bs : list blk) : list blk :=
-  fold_left (fun bs op => blks_apply n (fun b => a_step b op) bs) ops bs.
-Definition attach_all (ch : chain) (x : extra) (f : list N) (k : key) (bs : list blk) : list blk :=
-  fold_left (fun bs n => attach_ops n (caller_ops ch x f n) bs) (krange k) bs.
+(* a sequence of (block number, operation) pairs applied in order *)
+Definition attach_pairs (ps : list (N * aop)) (bs : list blk) : list blk :=
+  fold_left (fun bs p => blks_apply (fst p) (fun b => a_step b (snd p)) bs) ps bs.
+Definition pairs_of (F : N -> list aop) (ns : list N) : list (N * aop) :=
+  flat_map (fun n => map (pair n) (F n)) ns.
 
-(* the uncached client *)
-Definition uget (ch : chain) (b : option kind) (x : extra) (f : list N) (k : key) : list blk :=
-  attach_all ch x f k (fresh ch b k).
+(* the uncached client when every request succeeds: the receipts / logs of
+   the whole range first, then the traces block by block *)
+Definition uget (ch : chain) (b : option kind) (x : extra) (t : bool) (f : list N) (k : key) : list blk :=
+  attach_pairs (pairs_of (stage1_ops ch x f) (krange k)
+                ++ (if t then pairs_of (trace_ops ch) (krange k) else []))
+               (fresh ch b k).
 
 (* ---- the caching client, one whole Get at a time ---- *)
 Record client := mkClient { cl_b : cache (list blk); cl_h : cache (list blk) }.
@@ -103,10 +118,11 @@ Definition set_data (sid : nat) (bs : list blk) (c : cache (list blk)) : cache (
   end.
 
 Record gop := mkGop {
-  g_base : option kind; g_extra : extra; g_filter : list N; g_key : key;
+  g_base : option kind; g_extra : extra; g_traces : bool; g_filter : list N; g_key : key;
   g_kept : list key;     (* pruneSegments' choice, as observed *)
   g_failb : bool;        (* the base fetch fails if it is made *)
-  g_failx : bool         (* the extra request fails if it is made *)
+  g_failx : bool;        (* the receipts / logs request fails if it is made *)
+  g_failt : option nat   (* Some i: the trace_block request for the i-th block of the range fails *)
 }.
 Inductive gres := GErr | GOk (bs : list blk).
 
@@ -115,45 +131,72 @@ Definition pick (b : kind) (cl : client) : cache (list blk) :=
 Definition put (b : kind) (c : cache (list blk)) (cl : client) : client :=
   match b with KHeaders => mkClient (cl_b cl) c | KBlocks => mkClient c (cl_h cl) end.
 
-(* result: client, what the caller gets, base requests sent, extra requests sent *)
-Definition cget (ch : chain) (op : gop) (cl : client) : option (client * gres * N * N) :=
+(* traces(): one request per block, in order; it stops at the first request
+   that fails and at the first block whose reply is empty ("no rpc error but
+   empty result"), leaving what it attached before.  Result: number of blocks
+   attached, whether all were. *)
+Fixpoint trace_stop (ch : chain) (failt : option nat) (i : nat) (ns : list N) : nat * bool :=
+  match ns with
+  | [] => (O, true)
+  | n :: r =>
+      if (match failt with Some j => Nat.eqb i j | None => false end)
+         || (match trace_ops ch n with [] => true | _ => false end)
+      then (O, false)
+      else let '(j, ok) := trace_stop ch failt (S i) r in (S j, ok)
+  end.
+
+(* what one Get attaches, in order, before it returns; whether it succeeds;
+   how many receipts/logs requests and trace requests it sends *)
+Definition stage1_plan (ch : chain) (op : gop) : list (N * aop) * bool * N :=
+  match g_extra op with
+  | XNone => ([], true, 0)
+  | x => if g_failx op then ([], false, 1)
+         else (pairs_of (stage1_ops ch x (g_filter op)) (krange (g_key op)), true, 1)
+  end.
+Definition call_plan (ch : chain) (op : gop) : list (N * aop) * bool * N * N :=
   let k := g_key op in
-  let do_extra (bs : list blk) : option (list blk) * N :=
-    match g_extra op with
-    | XNone => (Some bs, 0)
-    | x => if g_failx op then (None, 1) else (Some (attach_all ch x (g_filter op) k bs), 1)
-    end in
+  let '(ps1, ok1, nx) := stage1_plan ch op in
+  if ok1 && g_traces op then
+    let '(j, ok2) := trace_stop ch (g_failt op) 0 (krange k) in
+    (ps1 ++ pairs_of (trace_ops ch) (firstn j (krange k)), ok2, nx,
+     N.of_nat (if ok2 then j else S j))
+  else (ps1, ok1, nx, 0).
+
+(* result: client, what the caller gets, base / extra / trace requests sent.
+   The blocks a cache hands out are shared and attached to IN PLACE: what a
+   failing Get attached before it failed stays in the segment. *)
+Definition cget (ch : chain) (op : gop) (cl : client) : option (client * gres * N * N * N) :=
+  let k := g_key op in
+  let '(ps, ok, nx, nt) := call_plan ch op in
   match g_base op with
   | None =>
-      let '(r, nx) := do_extra (fresh ch None k) in
-      Some (cl, match r with Some bs => GOk bs | None => GErr end, 0, nx)
+      let bs := attach_pairs ps (fresh ch None k) in
+      Some (cl, if ok then GOk bs else GErr, 0, nx, nt)
   | Some b =>
       match lookup k (g_kept op) (pick b cl) with
       | None => None
       | Some (c1, sid, _) =>
           match read sid (if g_failb op then None else Some (fresh ch (Some b) k)) c1 with
           | None => None
-          | Some (c2, None, asked) => Some (put b c2 cl, GErr, if asked then 1 else 0, 0)
+          | Some (c2, None, asked) => Some (put b c2 cl, GErr, if asked then 1 else 0, 0, 0)
           | Some (c2, Some bs, asked) =>
-              let nb := if asked then 1 else 0 in
-              match do_extra bs with
-              | (None, nx) => Some (put b c2 cl, GErr, nb, nx)
-              | (Some bs', nx) => Some (put b (set_data sid bs' c2) cl, GOk bs', nb, nx)
-              end
+              let bs' := attach_pairs ps bs in
+              Some (put b (set_data sid bs' c2) cl, if ok then GOk bs' else GErr,
+                    if asked then 1 else 0, nx, nt)
           end
       end
   end.
 
-Fixpoint cget_run (ch : chain) (cl : client) (ops : list gop) : option (client * list (gres * N * N)) :=
+Fixpoint cget_run (ch : chain) (cl : client) (ops : list gop) : option (client * list (gres * N * N * N)) :=
   match ops with
   | [] => Some (cl, [])
   | op :: r =>
       match cget ch op cl with
       | None => None
-      | Some (cl1, res, nb, nx) =>
+      | Some (cl1, res, nb, nx, nt) =>
           match cget_run ch cl1 r with
           | None => None
-          | Some (cl2, outs) => Some (cl2, (res, nb, nx) :: outs)
+          | Some (cl2, outs) => Some (cl2, (res, nb, nx, nt) :: outs)
           end
       end
   end.
@@ -184,12 +227,14 @@ Definition gstep (s : sys (list blk)) (e : gev) : option (sys (list blk)) :=
       end
   end.
 
-Definition op_bh (op : aop) : N := match op with AGroup bh _ _ _ => bh | AReceipt bh _ _ _ _ => bh end.
+Definition op_bh (op : aop) : N :=
+  match op with AGroup bh _ _ _ => bh | AReceipt bh _ _ _ _ => bh | ATraces bh _ _ _ => bh end.
 
 (* honest unchanging source: a successful base fetch returns the chain's
    blocks of the key; attached logs / receipts are the chain's *)
 Definition op_ok (ch : chain) (n : N) (op : aop) : Prop :=
-  honest (full ch n) op /\ op_bh op = cb_hash (ch n).
+  honest (full ch n) op /\ op_bh op = cb_hash (ch n)
+  /\ match op with ATraces _ i _ tas => tas = ftr ch n i | _ => True end.
 Definition gev_honest (ch : chain) (b : kind) (s : sys (list blk)) (e : gev) : Prop :=
   match e with
   | GCache (ERead sid (Some d)) => d = fresh ch (Some b) (seg_key_of (c_heap (sy_cache s)) sid)
@@ -212,8 +257,9 @@ Definition ops_for (sid : nat) (n : N) (tr : list gev) : list aop :=
 
 (* what two block lists must agree on from the point of view of a caller
    whose extra request was x with filter f *)
-Definition same_view (x : extra) (f : list N) (cb ub : blk) : Prop :=
+Definition same_view (x : extra) (t : bool) (f : list N) (cb ub : blk) : Prop :=
   b_num cb = b_num ub /\ b_hash cb = b_hash ub /\ b_time cb = b_time ub
+  /\ (t = true -> forall i, traces_of cb i = traces_of ub i)
   /\ forall i,
        NoDup (idxs (filter (want x f) (logs_of cb i)))
        /\ NoDup (idxs (filter (want x f) (logs_of ub i)))
@@ -223,8 +269,8 @@ Definition same_view (x : extra) (f : list N) (cb ub : blk) : Prop :=
 Definition transparent_result (ch : chain) (op : gop) (r : gres) : Prop :=
   forall bs, r = GOk bs ->
     match g_base op with
-    | Some b => Forall2 (same_view (g_extra op) (g_filter op)) bs
-                        (uget ch (Some b) (g_extra op) (g_filter op) (g_key op))
-    | None => bs = uget ch None (g_extra op) (g_filter op) (g_key op)
+    | Some b => Forall2 (same_view (g_extra op) (g_traces op) (g_filter op)) bs
+                        (uget ch (Some b) (g_extra op) (g_traces op) (g_filter op) (g_key op))
+    | None => bs = uget ch None (g_extra op) (g_traces op) (g_filter op) (g_key op)
     end.
 
